@@ -173,12 +173,12 @@ open YaraModel.ReVm YaraModel.ReEmit in
     language per instruction address.
     Full statement aimed at (not yet proved): the same for backward code and for the fast matcher `yr_re_fast_exec`, and the
     converse inclusion (completeness: every admissible length is reported in exhaustive mode). -/
-theorem vm_sound_partial (r : Re) (hf : HexFrag r) (hsz : clen r < 32000) (buf : Bytes) (start : Nat) (hst : start ≤ buf.size)
+theorem vm_sound_partial (r : Re) (hf : Frag r) (hsz : clen r < 32000) (buf : Bytes) (start : Nat) (hst : start ≤ buf.size)
     (fl : VmFlags) (hw : fl.wide = false) (hb : fl.backwards = false) (hsc : fl.scan = false) (fuel : Nat) (m : Int) (c : List Nat)
     (h : exec { code := (emitCode false r).toArray, entry := 0, buf := buf, start := start, fl := fl, syncFuel := fuel } = .done m c) :
     (∀ L, L ∈ c → Re.Matches (specFlags fl) buf r start (start + L)) ∧
     (0 ≤ m → Re.Matches (specFlags fl) buf r start (start + m.toNat)) :=
-  vm_sound_hex r hf hsz buf start hst fl hw hb hsc fuel m c h
+  vm_sound_frag r hf hsz buf start hst fl hw hb hsc fuel m c h
 
 open YaraModel.ReVm YaraModel.ReEmit in
 /-- instance: `41 ( 42 | ?3 44 ) [1-2] ~45` on `41 13 44 00 00 46`: the VM run on the emitted code reports lengths 6 and 5 -/
